@@ -35,6 +35,10 @@ NormOne(s) ==
     [] s.k = "next"  -> IF Len(s.vs) = 0 THEN <<[k |-> "next", any |-> TRUE]>>
                         ELSE [j \in 1..Len(s.vs) |-> [k |-> "next", any |-> FALSE, v |-> s.vs[j]]]
     [] s.k = "if"    -> <<[k |-> "if", c |-> s.c, th |-> Norm(s.th), el |-> Norm(s.el)]>>
+    \* FOR v = x TO y STEP z: first v is assigned x, then y and z are evaluated and the loop
+    \* is entered: two steps, an interrupt may fall between them
+    [] s.k = "for"   -> <<[k |-> "for1", v |-> s.v, a |-> s.a],
+                          [k |-> "for2", v |-> s.v, b |-> s.b, c |-> s.c]>>
     [] OTHER -> <<s>>
 Norm(ss) == IF ss = <<>> THEN <<>> ELSE NormOne(Head(ss)) \o Norm(Tail(ss))
 
